@@ -27,6 +27,7 @@ type arrival struct {
 	b     string
 	miss  bool
 	sol   bool
+	inj   bool // handed to the reactor directly (concurrent batch), not through the liar's connection
 	start int
 	ack   int
 	ok    bool
@@ -72,7 +73,7 @@ func judge(h *Header, evs []Ev) *judgement {
 	for _, e := range evs {
 		switch e.K {
 		case "chunk-start":
-			arr[e.A] = &arrival{id: e.A, peer: e.P, h: e.H, f: e.F, i: e.I, b: e.B, miss: e.Miss, sol: e.Sol, start: e.N}
+			arr[e.A] = &arrival{id: e.A, peer: e.P, h: e.H, f: e.F, i: e.I, b: e.B, miss: e.Miss, sol: e.Sol, inj: e.X == "concurrent", start: e.N}
 		case "chunk-done":
 			if a := arr[e.A]; a != nil {
 				a.ok = e.OK
@@ -116,6 +117,9 @@ func judge(h *Header, evs []Ev) *judgement {
 	// rejected while the pool certainly did not hold it any more (every advertiser had left or been rejected by then)
 	orphanKeys := map[string]bool{}
 	orphanFormats := map[uint32]bool{}
+	// rejected after another snapshot of the same format had already left the pool (refused, its peers gone
+	// or rejected) while further ones were still pooled
+	earlierFormats := map[uint32]string{}
 	var stops []rejection // (peer, event) of every peer-stop
 	// senders of a snapshot answered REJECT_SENDER that had disconnected while the offer was in flight
 	var awayRejections []rejection
@@ -237,7 +241,9 @@ func judge(h *Header, evs []Ev) *judgement {
 				}
 			}
 			if at, ok := rejectedFormats[e.F]; ok {
-				if orphanFormats[e.F] {
+				if how, ok := earlierFormats[e.F]; ok && !orphanFormats[e.F] {
+					j.add("rejected-format-offered-again-after-earlier-removal", fmt.Sprintf("format %d was rejected at event %d, after another snapshot of that format had already left the pool (%s); a snapshot of that format is offered nevertheless", e.F, at, how), e.N, e)
+				} else if orphanFormats[e.F] {
 					j.add("rejected-format-offered-again-after-pool-removal", fmt.Sprintf("format %d was rejected at event %d, when the pool held no snapshot of that format any more; a snapshot of that format is offered", e.F, at), e.N, e)
 				} else {
 					j.add("rejected-format-offered-again", fmt.Sprintf("format %d was rejected at event %d and a snapshot of that format is offered", e.F, at), e.N, e)
@@ -309,6 +315,40 @@ func judge(h *Header, evs []Ev) *judgement {
 					if !pooled(func(a *advert) bool { return a.f == cf }, e.N) {
 						orphanFormats[cf] = true
 						j.counts["format rejected while no snapshot of it pooled"]++
+					} else {
+						// which snapshots of that format had been advertised and are gone by now, and how
+						seen := map[string]bool{}
+						for _, a := range advList {
+							if a.f != cf || a.start > e.N || a.key == curKey || seen[a.key] {
+								continue
+							}
+							seen[a.key] = true
+							ak := a.key
+							how := ""
+							if _, ok := rejectedKeys[ak]; ok {
+								how = "refused (REJECT / provider failure)"
+							} else if !pooled(func(b *advert) bool { return b.key == ak }, e.N) {
+								how = "its peers had disconnected or been rejected as senders"
+							}
+							if how != "" {
+								earlierFormats[cf] = how
+								j.counts["format rejected after a snapshot of it had left the pool: "+how]++
+							}
+						}
+						still := 0
+						seen = map[string]bool{}
+						for _, a := range advList {
+							ak := a.key
+							if a.f == cf && a.start < e.N && ak != curKey && !seen[ak] {
+								seen[ak] = true
+								if _, ok := rejectedKeys[ak]; !ok && pooled(func(b *advert) bool { return b.key == ak }, e.N) {
+									still++
+								}
+							}
+						}
+						if still > 0 {
+							j.counts["format rejected while other snapshots of it were still pooled"]++
+						}
 					}
 				}
 			case "REJECT_SENDER":
